@@ -1,12 +1,12 @@
-\* leg A quick: 2 callers x 1 call, stream + datagram, limits 1 and 2, all env budgets 1 (design: D1/D2/D5 switches off)
-SPECIFICATION FairSpec
+\* PipeConn_design2.cfg6
+SPECIFICATION Spec
 CONSTANTS
   Callers = {0, 1}
   M = 4
-  MaxCqs = {1, 2}
+  MaxCqs = {2}
   MaxCalls = 1
   StartQids = {3}
-  Datagrams = {TRUE, FALSE}
+  Datagrams = {FALSE}
   UNBUFFERED_HANDOFF = FALSE
   RANDOM_SELECT = FALSE
   DOUBLE_COUNT = FALSE
@@ -15,8 +15,8 @@ CONSTANTS
   MaxDup = 1
   MaxCancel = 1
   MaxFault = 1
+  GenFocus = "none"
   WithHist = FALSE
 INVARIANTS TypeOK OwnReply NoStrayDelivered NoLoss Limit ExactAccounting NoUnderflow NoSpuriousRefusal QuiescentFree
-PROPERTIES ArrivedLeadsToDone
 VIEW ViewNoHist
 CHECK_DEADLOCK FALSE
